@@ -113,7 +113,22 @@ VTxGap(ev) ==
     Ok(IsVal(ev[3]) /\ PosSet(ev[3][2]) = IntronPos(ex), "introns"),
     Ok(IsVal(ev[4]) /\ PosSet(ev[4][2]) = MinStart(ex)..(MaxEnd(ex) - 1), "span") >>)
 
-Verdict(ev) == CASE ev[1] = "txgap" -> VTxGap(ev) [] ev[1] = "txpos" -> VTxPos(ev) [] ev[1] = "m1" -> VM1(ev) [] ev[1] = "tx" -> VTx(ev) [] ev[1] = "txiv" -> VTxIv(ev) [] OTHER -> "unknown-op"
+(* ["isect", kind ("tx" | "feat"), exons, coding, query location, outcome <<"v", blocks-as-location, isCoding>>] :
+   TranscriptInterval / FeatureInterval .intersect(location): the interval restricted to the positions of the other
+   location, on the interval's OWN strand (the query's strand is ignored); nothing in common is refused; a transcript's CDS
+   is documented to be dropped *)
+VIsect(ev) ==
+  LET ex == ev[3] q == ev[5] o == ev[6] common == PosSet(ex) \cap PosSet(q) IN
+  IF common = {} THEN Ok(Rejected(o), "intersect:disjoint-is-refused")
+  ELSE IF ~IsVal(o) THEN "intersect:returns"
+  ELSE IF IsEmptyLoc(o[2]) THEN "intersect:nonempty"
+  ELSE IF PosSet(o[2]) # common THEN "intersect:positions"
+  ELSE IF St(o[2]) # St(ex) THEN "intersect:keeps-own-strand"
+  ELSE IF ~WellFormed(o[2], -1) THEN "intersect:wellformed"
+  ELSE IF ev[2] = "tx" /\ o[3] THEN "intersect:cds-is-dropped-as-documented"
+  ELSE "ok"
+
+Verdict(ev) == CASE ev[1] = "isect" -> VIsect(ev) [] ev[1] = "txgap" -> VTxGap(ev) [] ev[1] = "txpos" -> VTxPos(ev) [] ev[1] = "m1" -> VM1(ev) [] ev[1] = "tx" -> VTx(ev) [] ev[1] = "txiv" -> VTxIv(ev) [] OTHER -> "unknown-op"
 Bad == {i \in DOMAIN Trace : Verdict(Trace[i]) # "ok"}
 ASSUME \A i \in Bad : PrintT(<<"BAD", i, Verdict(Trace[i])>>)
 ASSUME PrintT(<<"DONE", Len(Trace), Cardinality(Bad)>>)
